@@ -47,6 +47,10 @@ def step (line : String) : String :=
         let bl := (List.zip xs f).take (slopeIdp tip)
         "idp=" ++ toString (slopeIdp tip) ++ " m=" ++ showQ (olsSlope bl) ++ " c=" ++ showQ (olsIntercept bl) ++
           " out=" ++ showL (correctSlope region (qk "m") (qk "c") xs tip f)
+    | some "ols" =>
+        -- closed-form least squares of y on g (used by ./check C01: fixed-contact-point fits)
+        let ps := List.zip (arr "g") (arr "y")
+        "m=" ++ showQ (olsSlope ps) ++ " c=" ++ showQ (olsIntercept ps)
     | some "smooth" => match smoothMonotone (nk "w") (nk "maxiter") (arr "d") with
         | some s => showL s
         | none => "none"
